@@ -190,8 +190,10 @@ PROPS['C03'] = {
                  'intersection, difference, collection of arbitrary block sequences) + differential check with a set-membership '
                  'oracle over all small block sequences and all pairs of small canonical sets, AS and IP',
     'claim': 'Lean 4 proofs over an item space [0,M] for every M (2^32-1, 2^128-1): canonical chains are unique per denoted set, so == '
-             'is set equality; contains_item is membership (theorems listed in the evidence; the loop-invariant proofs for '
-             'is_encompassed/trim/difference/from_iter are added as they are completed). Every public operation of AsBlocks / IpBlocks '
+             'is set equality; collecting ANY sequence of well-formed blocks (unsorted, overlapping, adjacent, duplicated, at the ends of '
+             'the space) yields the canonical chain of their union; is_encompassed is inclusion; trim is ok iff included and otherwise '
+             'the canonical intersection; difference, union, intersection are exact; verify_issued is a subset of the issuer with the '
+             'four exact cases; contains_block/intersects_block, contains_item and asn_count (saturating) are exact. Every public operation of AsBlocks / IpBlocks '
              '(collect in any order, union, intersection, difference, contains, ==, verify_issued refuse/trim/inherit/missing, '
              'verify_covered, contains_block/intersects_block, asn_count, range->prefix decomposition, text and serde round trips) is '
              'checked on the implementation against the mathematical set (membership on all block ends +-1) and for canonical form. '
